@@ -16,6 +16,8 @@ pub mod c15;
 pub mod c16;
 pub mod c17;
 pub mod c18;
+pub mod c19;
+pub mod c20;
 pub mod tools_sm2;
 
 use crate::mon::Ctx;
@@ -42,6 +44,8 @@ pub fn run(prop: &str, ctx: &mut Ctx, extra: &[String]) -> bool {
         "C16" => c16::run(ctx),
         "C17" => c17::run(ctx),
         "C18" => c18::run(ctx),
+        "C19" => c19::run(ctx),
+        "C20" => c20::run(ctx),
         _ => return false,
     }
     true
@@ -63,6 +67,7 @@ pub fn tool(args: &[String]) {
             }
             println!("sm2 selftest {:.2}s", t.elapsed().as_secs_f64());
         }
+        Some("sm2-zero-coord") => tools_sm2::zero_coord_search(16),
         Some("sm2-search") => tools_sm2::search(16, 2, 2),
         _ => eprintln!("unknown tool"),
     }
